@@ -25,11 +25,11 @@ CHECKS = {
          "Held on every accepted leg of the directed matrices and random walks."),
  "C06": ("exploration", "§5 C06", "online monitor: GasRemaining + forwarded <= GasProvided on every committed leg; gas sweep around the measured charge: an under-funded call fails or leaves nothing",
          "Held on the scenario library x 14 gas values around own cost / measured charge x 3 schedules (incl. 2^32-1 costs) and on random-walk legs with adversarial gas."),
- "C11": ("exploration", "§5 C11", "panic / child-death monitor, result-shape monitor and exact per-call heap-allocation monitor (runtime.ReadMemStats) under RLIMIT_AS, one child process per batch",
+ "C11": ("exploration", "§5 C11", "panic / child-death monitor, result-shape monitor and exact per-call heap-allocation monitor (runtime.ReadMemStats) under RLIMIT_AS, one child process per batch; goroutine-dump monitor for a call that never returns (the only goroutine inside the library waits for a lock nobody holds)",
          "Held on grammar-based hostile argument lists for all 23 functions on evolved worlds, plus directed count-residue and aliasing cases."),
  "C12": ("exploration", "§5 C12", "panic monitor + parse∘build / build∘parse oracles against an independent tokenizer over an exhaustively enumerated string domain and generated argument lists; hostile inputs for the ESDT-transfer parser",
          "Exhaustive over all strings up to length 7 (quick) / 8 (thorough) over a 6-symbol alphabet; sampled beyond."),
- "C13": ("exploration", "§5 C13", "differential re-execution monitor: the same leg on a reused twin container (another goroutine, after an unrelated call) and on a fresh container must give byte-identical canonical output and world; sentinel-based input deep-compare; hook on the functions' byte-slice fields",
+ "C13": ("exploration", "§5 C13", "differential re-execution monitor: the same leg on a reused twin container (another goroutine, after an unrelated call) and on a fresh container must give byte-identical canonical output and world, also after the caller scribbled over the previous output; outputs handed out earlier re-canonicalised after later calls; sentinel-based input deep-compare; hook on the functions' byte-slice fields",
          "Held on every leg of random walks and on the scenario library under changed schedule/epoch configuration; thorough additionally under the race detector."),
  "C14": ("exploration", "§5 C14", "library codec vs independent reference codec (byte equality), size/determinism/round-trip oracles, decode-anything panic monitor",
          "Exhaustive over all amount buffers of length 0..2 (quick) / 0..3 (thorough) and all |v| < 2^16; generated structured values and mutated encodings otherwise."),
@@ -37,11 +37,11 @@ CHECKS = {
          "Held on long random walks and on EVERY operation sequence up to depth 3 (quick) / 4 (thorough) over 36 templates in a small universe."),
  "C16": ("exploration", "§5 C16", "schedule-sensitivity oracle: per-field consumption deltas under 22 single-field perturbations applied through the real factory.GasScheduleChange + absolute price formula + rejected-schedule and change-sequence oracles",
          "Held on every sender-side scenario of the library (15 priced functions x sizes x shard relation x call types x attached call) except one recorded open finding (known_findings.json: asynchronous ClaimDeveloperRewards by a same-shard contract owner consumes all gas), which is printed as KNOWN-FINDING."),
- "C17": ("fault_enumeration", "§5 C17", "fault injection at the dependency choke point: every k-th injectable dependency call of every scenario fails once; oracle: nil output and non-nil error",
+ "C17": ("fault_enumeration", "§5 C17", "fault injection at the dependency choke point: every k-th injectable dependency call of every scenario fails once, with each of eight error values; oracle: nil output and non-nil error",
          "Complete enumeration of single fault points over the scenario library (every function x leg x variant); double faults and walk-leg faults in addition."),
  "C18": ("exploration", "§5 C18", "IsActive of all 23 functions vs reference after every notification of exhaustively enumerated epoch sequences; registry vs literal name list; per-name binding probes with the name-keyed effect monitors",
          "Exhaustive over activation epochs {0,1,2,3,2^31,2^32-1} x all epoch sequences up to length 4 (quick) / 5 (thorough) over a small domain, on 1-3 shard factory configurations."),
- "C19": ("exploration", "§5 C19", "Go race detector over a shared-container stress + porcupine linearizability checking of recorded histories against sequential models + single-schedule pricing oracle",
+ "C19": ("exploration", "§5 C19", "Go race detector over a shared-container stress + porcupine linearizability checking of recorded histories against sequential models + single-schedule pricing, gas-bound and payability oracles on every concurrent execution",
          "Held on ~4800 recorded histories (quick) and ~1M concurrent built-in calls interleaved with ~5000 schedule changes per run, race detector silent; sampled schedules only."),
  "C20": ("exploration", "§5 C20", "algebraic-law oracles with independent reference implementations under a panic monitor",
          "Exhaustive over all 65536 byte pairs and lengths 0,1,3,4 over a 6-value alphabet; structured address patterns; generated output-account triples."),
